@@ -79,11 +79,16 @@ impl Context {
     }
 
     pub fn push_error_handler_context(&mut self) {
+        self.drop_argument_states();
+        self.do_push_existing(0, false);
+    }
+
+    /// Drops the arguments that were being collected when an error occurred.
+    pub fn drop_argument_states(&mut self) {
         // drop all ArgumentState until we hit the first NormalState
         while self.states.last().unwrap().arguments.is_some() {
             self.do_pop();
         }
-        self.do_push_existing(0, false);
     }
 
     pub fn global_variables(&self) -> &Variables {
